@@ -16,7 +16,7 @@ LEVEL_TEXT = (
     'necessary conditions; termination and schedule independence as theorems are NOT decided.')
 
 FLOORS = {'C05-R1': 6, 'C05-R2': 5, 'C05-R3': 1, 'C05-R4': 2, 'C05-R5': 2, 'C05-R6': 4,
-          'C05-R7': 4, 'C05-R8': 3, 'C05-R9': 1, 'C05-R10': 2, 'C05-R11': 3, 'C12-R6': 4, 'C01-R7': 5, 'C01-R10': 4}
+          'C05-R7': 4, 'C05-R8': 3, 'C05-R9': 1, 'C05-R10': 2, 'C05-R11': 3, 'C12-R6': 4, 'C12-R7': 5, 'C01-R7': 5, 'C01-R10': 4}
 
 BLOCKING = ('thread::sleep', 'JoinHandle::join', 'Receiver::recv', 'Receiver::recv_timeout',
             'Thread::park', 'thread::park', 'Condvar::wait', 'Condvar::wait_for', 'Condvar::wait_until',
@@ -617,6 +617,11 @@ def run(ctx):
     import c12
     ctx.doc('C12-R6', 'no cycle through check_block avoids every observer of the shutdown state')
     c12.r6_shutdown_observed(ctx, F)
+    # "any number of worker threads": simulation workers explore different traces only if each one's rng is seeded
+    # with its own per-thread seed
+    ctx.doc('C12-R7', 'simulation: first trace uses the caller\'s seed; each worker\'s rng is seeded with its own seed')
+    with ctx.rule('C12-R7', 'SIM'):
+        c12.r7_seed(ctx, F)
     # "no pending unit of work is dropped": the frontier-conservation rules of C01
     import c01
     import c19
